@@ -123,6 +123,9 @@ def make_recorder(tr: Tracer, tag: str, signal: str, slow: bool):
     return ns[signal]
 
 
+_MISSING = object()
+
+
 def make_partial_recorder(tr: Tracer, tag: str, signal: str):
     """a subscriber that declares only ONE of the signal's arguments, with a default (`async def after_enqueue(result=None)`): it
     is called with that argument alone"""
@@ -199,11 +202,25 @@ def build_conn(tr: Tracer, tag: str, subs: dict, counter: dict) -> Connection:
         for m in b.__WRAPPED_METHODS__:
             tr.trace(getattr(b, m), tag)
     if subs.get("recorders", True):
+        objs: list = []
         for s in sorted(SUBSCRIBERS_NAMES):
             conn.middleware.add_subscriber(make_recorder(tr, tag, s, slow=subs.get("slow_recorder", False)))
             pr = make_partial_recorder(tr, tag, s)
-            if pr is not None:
+            if pr is not None and len(s) % 3:
                 conn.middleware.add_subscriber(pr)
+            elif pr is not None:
+                objs.append((s, pr))
+        if objs:
+            # … and a third of them as methods of a middleware OBJECT (`add_middleware` collects the methods named like signals)
+            ns = {}
+            for sname, fn in objs:
+                only = (PARAMS[sname.split("_", 1)[1]] + (["result"] if sname.startswith("after_") else []))[-1]
+                sync = not asyncio.iscoroutinefunction(fn)
+                ns["_f_" + sname] = fn
+                exec(("def" if sync else "async def") + f" {sname}(self, {only}=_MISSING):\n    return " + ("" if sync else "await ") +
+                     f"_f_{sname}(*(() if {only} is _MISSING else ({only},)))\n", dict(ns, _MISSING=_MISSING), ns)  # noqa: S102
+            cls = type("RecordingMiddleware", (), {k: v for k, v in ns.items() if not k.startswith("_")})
+            conn.middleware.add_middleware(cls())
     for kind, signal in subs.get("noise", []):
         conn.middleware.add_subscriber(make_noise(kind, signal, counter))
     TAGS[id(conn)] = tag
